@@ -789,62 +789,6 @@ theorem inv_empty : Inv (empty : Container K V) := by simp [empty, Inv]
 
 theorem abs_empty : abs (empty : Container K V) = [] := by simp [empty, abs, sortByIndex]
 
-/-- the `_` arm of `new` on pairwise distinct keys -/
-theorem newN_refines (es : List (K × V)) (nd : (es.map (·.1)).Nodup) :
-    Inv (newN es) ∧ abs (newN es) = es := by
-  let g : (K × V) × Nat → K × IndexedEntry V := fun p => (p.1.1, { v := p.1.2, index := p.2 })
-  have hkeys : (es.zipIdx.map g).map (·.1) = es.map (·.1) := by
-    rw [map_map]
-    have : ((fun x : K × IndexedEntry V => x.1) ∘ g) = (fun x : K × V => x.1) ∘ Prod.fst := by
-      funext p; rfl
-    rw [this, ← map_map, zipIdx_map_fst]
-  have hidx : (es.zipIdx.map g).map (·.2.index) = List.range (es.zipIdx.map g).length := by
-    rw [map_map]
-    have : ((fun x : K × IndexedEntry V => x.2.index) ∘ g) = Prod.snd := by
-      funext p; rfl
-    rw [this, zipIdx_map_snd, range_eq_range']
-    simp
-  have hl : HMap.ofList (es.zipIdx.map g) = es.zipIdx.map g :=
-    HMap.ofList_of_nodup _ (by rw [hkeys]; exact nd)
-  have sf : SortedForm (es.zipIdx.map g) (es.zipIdx.map g) := ⟨Perm.refl _, hidx⟩
-  have hn : newN es = .n (es.zipIdx.map g) := by
-    simp only [newN]; rw [hl]
-  rw [hn]
-  refine ⟨inv_of_sortedForm (by rw [hkeys]; exact nd) sf, ?_⟩
-  rw [abs_n_of_sortedForm sf, map_map]
-  have : (kv ∘ g) = Prod.fst := by funext p; rfl
-  rw [this, zipIdx_map_fst]
-
-/-- `new` on pairwise distinct keys is the given list, at every length -/
-theorem new_refines (es : List (K × V)) (nd : (es.map (·.1)).Nodup) :
-    Inv (new es) ∧ abs (new es) = es := by
-  match es, nd with
-  | [], _ => exact ⟨inv_empty, abs_empty⟩
-  | [(k, v)], _ => simp [new, Inv, abs]
-  | [(k1, v1), (k2, v2)], nd =>
-    have h : [k1, k2].Nodup := by simpa using nd
-    have hu : uniqueKeyLen [k1, k2] = 2 := by
-      simp only [nodup_cons, mem_cons, not_or] at h
-      simp [uniqueKeyLen, dedupKeys, h]
-    simp [new, hu, Inv, abs, h]
-  | [(k1, v1), (k2, v2), (k3, v3)], nd =>
-    have h : [k1, k2, k3].Nodup := by simpa using nd
-    have hu : uniqueKeyLen [k1, k2, k3] = 3 := by
-      simp only [nodup_cons, mem_cons, not_or] at h
-      simp [uniqueKeyLen, dedupKeys, h]
-    simp [new, hu, Inv, abs, h]
-  | [(k1, v1), (k2, v2), (k3, v3), (k4, v4)], nd =>
-    have h : [k1, k2, k3, k4].Nodup := by simpa using nd
-    have hu : uniqueKeyLen [k1, k2, k3, k4] = 4 := by
-      simp only [nodup_cons, mem_cons, not_or] at h
-      simp [uniqueKeyLen, dedupKeys, h]
-    simp [new, hu, Inv, abs, h]
-  | e1 :: e2 :: e3 :: e4 :: e5 :: r, nd =>
-    have : new (e1 :: e2 :: e3 :: e4 :: e5 :: r) = newN (e1 :: e2 :: e3 :: e4 :: e5 :: r) := by
-      simp [new]
-    rw [this]
-    exact newN_refines _ nd
-
 /-- a whole history of inserts (new keys and overwrites) -/
 def insertAll (c : Container K V) (ops : List (K × V)) : Container K V :=
   ops.foldl (fun c e => (c.insert e.1 e.2).1) c
@@ -865,6 +809,91 @@ theorem fromIter_refines (es : List (K × V)) :
   have := insertAll_refines (inv_empty (K := K) (V := V)) es
   rw [abs_empty] at this
   exact this
+
+/-- `unique_key_len` equals the number of keys exactly when the keys are pairwise distinct -/
+theorem dedupKeys_length_le (l : List K) : (dedupKeys l).length ≤ l.length := by
+  induction l with
+  | nil => simp [dedupKeys]
+  | cons k r ih =>
+    simp only [dedupKeys]
+    split_ifs <;> simp <;> omega
+
+theorem uniqueKeyLen_eq_length_iff (l : List K) : uniqueKeyLen l = l.length ↔ l.Nodup := by
+  induction l with
+  | nil => simp [uniqueKeyLen, dedupKeys]
+  | cons k r ih =>
+    simp only [uniqueKeyLen] at ih
+    simp only [uniqueKeyLen, dedupKeys, nodup_cons]
+    have := dedupKeys_length_le r
+    split_ifs with hk
+    · simp only [length_cons]
+      constructor
+      · intro h; omega
+      · intro h; exact absurd hk h.1
+    · simp only [length_cons, Nat.add_right_cancel_iff, ih]
+      exact ⟨fun h => ⟨hk, h⟩, fun h => h.2⟩
+
+/-- `new` on ANY list (repeated keys included) is the insertion-ordered association list of that
+    list — the same as `from_iter` — at every length -/
+theorem new_refines (es : List (K × V)) :
+    Inv (new es) ∧ abs (new es) = Spec.insertAll [] es := by
+  have small : ∀ (c : Container K V), (es.map (·.1)).Nodup → Inv c → abs c = es →
+      Inv c ∧ abs c = Spec.insertAll [] es := by
+    intro c nd hi ha
+    refine ⟨hi, ?_⟩
+    rw [ha]
+    -- with distinct keys every insert appends
+    have : ∀ (acc l : List (K × V)), ((acc ++ l).map (·.1)).Nodup → Spec.insertAll acc l = acc ++ l := by
+      intro acc l
+      induction l generalizing acc with
+      | nil => intro _; simp [Spec.insertAll]
+      | cons e r ih =>
+        intro nd
+        have hk : e.1 ∉ acc.map (·.1) := by
+          simp only [map_append, map_cons] at nd
+          have := (nodup_append.mp nd).2.2
+          intro h
+          exact this _ h _ (mem_cons_self) rfl
+        simp only [Spec.insertAll, foldl_cons, Spec.insert_of_not_mem _ hk]
+        have := ih (acc ++ [(e.1, e.2)]) (by simpa using nd)
+        simp only [Spec.insertAll] at this
+        rw [this]; simp
+    have h2 := this [] es (by simpa using nd)
+    simp only [nil_append] at h2
+    exact h2.symm
+  match es with
+  | [] => exact ⟨inv_empty, by simp [new, abs_empty, Spec.insertAll]⟩
+  | [(k, v)] => exact small _ (by simp) (by simp [new, Inv]) (by simp [new, abs])
+  | [(k1, v1), (k2, v2)] =>
+    simp only [new]
+    split_ifs with hu
+    · have h : [k1, k2].Nodup := (uniqueKeyLen_eq_length_iff _).mp hu
+      exact small _ (by simpa using h) (by simpa [Inv] using h) (by simp [abs])
+    · exact fromIter_refines _
+  | [(k1, v1), (k2, v2), (k3, v3)] =>
+    simp only [new]
+    split_ifs with hu
+    · have h : [k1, k2, k3].Nodup := (uniqueKeyLen_eq_length_iff _).mp hu
+      exact small _ (by simpa using h) (by simpa [Inv] using h) (by simp [abs])
+    · exact fromIter_refines _
+  | [(k1, v1), (k2, v2), (k3, v3), (k4, v4)] =>
+    simp only [new]
+    split_ifs with hu
+    · have h : [k1, k2, k3, k4].Nodup := (uniqueKeyLen_eq_length_iff _).mp hu
+      exact small _ (by simpa using h) (by simpa [Inv] using h) (by simp [abs])
+    · exact fromIter_refines _
+  | e1 :: e2 :: e3 :: e4 :: e5 :: r =>
+    have : new (e1 :: e2 :: e3 :: e4 :: e5 :: r) = fromIter (e1 :: e2 :: e3 :: e4 :: e5 :: r) := by
+      simp [new]
+    rw [this]
+    exact fromIter_refines _
+
+/-- under the invariant `get_pair` answers `None` from `len` on — in particular at `len` itself, where
+    the code's guard (`index > len`) lets the lookup run -/
+theorem getPair_out_of_range {c : Container K V} (h : Inv c) {i : Nat} (hi : c.len ≤ i) :
+    c.getPair i = none := by
+  rw [getPair_abs h, getElem?_eq_none]
+  rw [← len_abs h]; exact hi
 
 end Container
 
